@@ -917,3 +917,192 @@ def shard_progress_step(fns):
         ctx.results.append(("return shape", "unsat" if ok else "sat", None if ok else {"returned": repr(res)}))
         out.append((branch, ctx.results))
     return out
+
+
+# ------------------------------------------------------------------------------------------------ iterator registry
+class RegInterp(Interp):
+    """Interpreter for the four RustIter methods of rust/src/lib.rs (new, __enter__, next, __exit__): the process-wide
+    map STATIC_ITERATORS is an association list of (key term, iterator identity); keys are 64-bit terms (z3) or ints.
+    Library semantics given by this whitelist: LazyLock/Mutex/MutexGuard/PyRefMut deref = identity, lock never fails,
+    HashMap insert/get_mut/remove/len/contains_key on the association list, rand::random = a fresh 64-bit value that is
+    NOT one of the live keys (assumption; a uniformly random u64 collides with <= 3 live keys with probability < 2^-62)."""
+
+    def operand(self, o):
+        o = o.strip()
+        if not o.startswith(("copy ", "move ", "const ")):
+            return ("fn-item", o)  # a function passed by name (PoisonError::into_inner)
+        return Interp.operand(self, o)
+
+    def call(self, callee, args):
+        w = self.w
+        raw = re.sub(r"::+", "::", strip_generics(callee.strip())).rstrip(":")
+        g = callee_key(callee)
+        a = [self.operand(x) for x in split_top(args)] if args.strip() else []
+        if raw.startswith("rand::random") or "::random" in raw and "rand" in raw:
+            r = z3.BitVec(f"rand{len(w.reg_rands)}", 64)
+            w.reg_rands.append(r)
+            for k, _it in w.reg:
+                w.reg_solver.add(r != (k if isinstance(k, z3.ExprRef) else z3.BitVecVal(k, 64)))
+            w.reg_assumed.add("rand::random() differs from every live key")
+            return r
+        if re.search(r"(Deref|DerefMut)::deref(_mut)?$", raw) or re.search(r"::(deref|deref_mut|borrow|borrow_mut|as_ref|as_mut)$", g):
+            return a[0]
+        if re.search(r"Mutex::lock$", raw) or g.endswith("Mutex::lock"):
+            return Enum("Ok", [("guard", a[0])])
+        if "unwrap_or_else" in raw:
+            return a[0].payload[0]
+        if g.endswith("from_str") or raw.endswith("::from_str"):
+            return Enum("Ok", [("opaque", raw)])
+        if raw.endswith("_print") or "Arguments" in raw:
+            return ()
+        if raw.endswith("ExampleIterator::new"):
+            w.reg_created += 1
+            return ("iterator", w.reg_created)
+        if raw.endswith("mem::drop") or raw == "drop":
+            return ()
+        if "HashMap" in raw and raw.endswith("::len"):
+            return len(w.reg)
+        if "HashMap" in raw and raw.endswith("::is_empty"):
+            return len(w.reg) == 0
+        if "HashMap" in raw and (raw.endswith("::insert") or raw.endswith("::get_mut") or raw.endswith("::get")
+                                 or raw.endswith("::remove") or raw.endswith("::contains_key")):
+            key = a[1]
+            hits = []
+            for idx, (k, itr) in enumerate(w.reg):
+                eq = self._key_eq(key, k)
+                if eq is None:
+                    w.reg_problems.append(dict(kind="key-collision-possible", at=raw.split("::")[-1], model=self._model_for(key, k),
+                                               what=f"the key {key} may equal the live key {k} of {itr}"))
+                    eq = True
+                if eq:
+                    hits.append(idx)
+            op = raw.split("::")[-1]
+            if op == "insert":
+                if hits:
+                    old = w.reg[hits[0]][1]
+                    w.reg_problems.append(dict(kind="insert-replaces-live-iterator", at="insert",
+                                               what=f"new() inserts under key {key}, which is the key of the live {old}: that "
+                                                    f"iterator is replaced (dropped) while its Python handle still uses the key"))
+                    w.reg[hits[0]] = (key, a[2])
+                    return Enum("Some", [old])
+                w.reg.append((key, a[2]))
+                return Enum("None")
+            if op in ("get_mut", "get"):
+                return Enum("Some", [w.reg[hits[0]][1]]) if hits else Enum("None")
+            if op == "contains_key":
+                return bool(hits)
+            if op == "remove":
+                if hits:
+                    return Enum("Some", [w.reg.pop(hits[0])[1]])
+                return Enum("None")
+        if raw.endswith("ExampleIterator as Iterator::next") or (g.endswith("::next") and "ExampleIterator" in callee):
+            return ("next-of", a[0])
+        if g.endswith("Vec::new") or g.endswith("into_iter") or g.endswith("::map") or g.endswith("::collect") \
+                or g.endswith("::expect") or g.endswith("::unwrap") or g.endswith("::clone"):
+            if g.endswith("::clone"):
+                return a[0]
+            r = yield from Interp.call(self, callee, args)
+            return r
+        raise Inconclusive("MIR callee not in the registry whitelist: " + raw)
+
+    def _key_eq(self, a, b):
+        if not isinstance(a, z3.ExprRef) and not isinstance(b, z3.ExprRef):
+            return a == b
+        if a is b:
+            return True
+        A = a if isinstance(a, z3.ExprRef) else z3.BitVecVal(a, 64)
+        B = b if isinstance(b, z3.ExprRef) else z3.BitVecVal(b, 64)
+        s = self.w.reg_solver
+        self.w.reg_queries += 1
+        s.push()
+        s.add(A == B)
+        can_eq = s.check()
+        s.pop()
+        s.push()
+        s.add(A != B)
+        can_ne = s.check()
+        s.pop()
+        if str(can_eq) == "unsat":
+            return False
+        if str(can_ne) == "unsat":
+            return True
+        if "unknown" in (str(can_eq), str(can_ne)):
+            raise Inconclusive("z3 unknown on a key comparison")
+        return None
+
+    def _model_for(self, a, b):
+        s = self.w.reg_solver
+        s.push()
+        s.add((a if isinstance(a, z3.ExprRef) else z3.BitVecVal(a, 64)) == (b if isinstance(b, z3.ExprRef) else z3.BitVecVal(b, 64)))
+        s.check()
+        m = {str(d): str(s.model()[d]) for d in s.model().decls()}
+        s.pop()
+        return m
+
+
+def registry_history(fns, history):
+    """Run one history of RustIter operations [(op, handle)], op in new|enter|next|exit, on the MIR.
+    Returns (problems, stats).  Obligations: new() never reuses the key of a live iterator; next() of handle h reaches the
+    iterator created by h's new(); exit() removes exactly h's iterator; no operation panics."""
+    w = World(fns, [])
+    w.reg, w.reg_rands, w.reg_created, w.reg_problems, w.reg_queries = [], [], 0, [], 0
+    w.reg_solver = z3.Solver()
+    w.reg_assumed = set()
+    names = dict(new=w.find(r"static_iter::<impl.*>::new$"), enter=w.find(r"static_iter::<impl.*>::__enter__$"),
+                 next=w.find(r"static_iter::<impl.*>::next$"), exit=w.find(r"static_iter::<impl.*>::__exit__$"))
+    handles, owner = {}, {}
+
+    def drive(gen):
+        try:
+            while True:
+                next(gen)
+        except StopIteration as si:
+            return si.value
+
+    for step, (op, h) in enumerate(history):
+        try:
+            if op == "new":
+                before = w.reg_created
+                handles[h] = drive(RegInterp(w, names["new"], {"_1": ["file"], "_2": False, "_3": 1, "_4": "compression"}).run())
+                if w.reg_created != before + 1:
+                    w.reg_problems.append(dict(kind="new-creates-no-iterator", what=f"step {step}: new() created {w.reg_created - before} iterators"))
+                owner[h] = ("iterator", w.reg_created)
+            elif op == "enter":
+                handles[h] = drive(RegInterp(w, names["enter"], {"_1": handles[h]}).run())
+            elif op == "next":
+                r = drive(RegInterp(w, names["next"], {"_1": handles[h]}).run())
+                if not (isinstance(r, tuple) and r[0] == "next-of" and r[1] == owner[h]):
+                    w.reg_problems.append(dict(kind="next-reaches-another-iterator", step=step,
+                                               what=f"step {step}: next() of handle {h} (owner of {owner[h]}) is served by {r}"))
+            elif op == "exit":
+                drive(RegInterp(w, names["exit"], {"_1": handles[h], "_2": "None", "_3": "None", "_4": "None"}).run())
+                if any(itr == owner[h] for _k, itr in w.reg):
+                    w.reg_problems.append(dict(kind="exit-leaves-iterator", what=f"step {step}: exit of handle {h} left its iterator registered"))
+                live_owners = {owner[x] for x in handles if ("exit", x) not in history[:step + 1] and ("new", x) in history[:step + 1]}
+                if live_owners - {itr for _k, itr in w.reg}:
+                    w.reg_problems.append(dict(kind="exit-removes-another-iterator", step=step,
+                                               what=f"step {step}: exit of handle {h} removed the iterator of another live handle"))
+        except Panic as p:
+            w.reg_problems.append(dict(kind="registry-operation-panics", step=step, what=f"step {step}: {op}({h}) panics: {p.msg}"))
+            break
+    return w.reg_problems, dict(queries=w.reg_queries, assumed=sorted(w.reg_assumed))
+
+
+def registry_histories(handles):
+    """All interleavings of new<enter<next<exit per handle (each handle: new, enter, next, exit)."""
+    seqs = [[("new", h), ("enter", h), ("next", h), ("exit", h)] for h in range(handles)]
+
+    def rec(pos):
+        if all(p == len(s) for p, s in zip(pos, seqs)):
+            yield []
+            return
+        for i, s in enumerate(seqs):
+            # symmetry: handle i+1 is created after handle i
+            if pos[i] < len(s):
+                if pos[i] == 0 and i > 0 and pos[i - 1] == 0:
+                    continue
+                np_ = list(pos)
+                np_[i] += 1
+                for rest in rec(np_):
+                    yield [s[pos[i]]] + rest
+    return rec([0] * handles)
